@@ -20,16 +20,18 @@ import (
 	"google.golang.org/grpc/credentials/insecure"
 )
 
-func WaitPort(port int, d time.Duration) error {
+func WaitPort(port int, d time.Duration) error { return WaitAddr(fmt.Sprintf("127.0.0.1:%d", port), d) }
+
+func WaitAddr(addr string, d time.Duration) error {
 	deadline := time.Now().Add(d)
 	for {
-		c, err := net.DialTimeout("tcp", fmt.Sprintf("127.0.0.1:%d", port), 200*time.Millisecond)
+		c, err := net.DialTimeout("tcp", addr, 200*time.Millisecond)
 		if err == nil {
 			c.Close()
 			return nil
 		}
 		if time.Now().After(deadline) {
-			return fmt.Errorf("port %d not reachable: %w", port, err)
+			return fmt.Errorf("%s not reachable: %w", addr, err)
 		}
 		time.Sleep(5 * time.Millisecond)
 	}
